@@ -123,8 +123,8 @@ JOBSETS['parse'] = {
 PROPS = {
     'C17': {'jobsets': ['legacy'], 'phases': [''], 'translator_validation': 2, 'also_labels': r'^(C13 |M-frozen)'},
     'C15': {'jobsets': ['depth'], 'phases': ['decode'], 'translator_validation': 4},
-    'C12': {'jobsets': ['codec'], 'phases': ['encode', 'decode'], 'job_filter': r'codec/(Sp|Sc|Tw|Id|Li_|Se_)', 'also_labels': r'^(C01|C02|C04)'},
-    'C13': {'jobsets': ['invalid'], 'phases': [''], 'translator_validation': 4},
+    'C12': {'jobsets': ['codec', 'parse'], 'phases': ['encode', 'decode'], 'job_filter': r'codec/(Sp|Sc|Tw|Id|Li_|Se_)|parse/', 'also_labels': r'^(C01|C02|C04)'},
+    'C13': {'jobsets': ['invalid', 'parse'], 'phases': [''], 'translator_validation': 4},
     'C07': {'jobsets': ['hist', 'dec2'], 'phases': ['pred', 'decode'], 'also_labels': r'^(C03|C09|C05|C06|C01)', 'job_filter': r'^(hist|dec2|decmsg)/'},
     'C06': {'jobsets': ['unit', 'dec2', 'decmsg', 'codec'], 'phases': [], 'job_filter': r'unit/(span|decoder)|^decmsg/|^dec2/|^codec/', 'also_labels': r'^M-(scan|align)'},
     'C01': {'jobsets': ['codec'], 'phases': ['decode']},
@@ -187,7 +187,7 @@ MANIFEST_TEXT.update({
     'C09': {'level': 'Reader types with required fields at ids on both sides of presence-set word boundaries (0,1,63,64,65,127 / 128,255,256,32767,32768,65534), nested in list/map/struct, '
                      'receive messages in which any subset is omitted or has the wrong wire type: failure with INVALID_DATA naming the first missing field exactly when the reference finds one missing; '
                      'also all byte strings <= N for a type with required id 300. Encode side: required fields are written for all values (byte equality with the reference).',
-            'ref': 'DESIGN.md s7 C09', 'note': _CODEC_NOTE + ' The bitset lemma with fully arbitrary pooled contents (1024 symbolic words) exceeds the solver budget with this encoding and is not claimed; dirty-bitset histories are covered by C07 harnesses only.',
+            'ref': 'DESIGN.md s7 C09', 'note': _CODEC_NOTE + ' Presence-set lemma (unit/bitset-lemma): word index case-split over all 1024 words x 4 relative positions, bit positions and word contents symbolic: set/unset/test are exact and never leave the array. Dirty presence bits: havocked pool (all 1024 words symbolic) and predecessor decodes.',
             'technique': 'SSA-level symbolic execution + SMT (z3), differential against reference decoder/encoder'},
     'C10': {'level': 'Types with default initialisers: the omission decision of EncodedSize/EncodeObject for optional fields equal to / different from the declared default is decided for all values '
                      '(incl. -0.0/NaN via fp.eq, empty vs nil binary) by byte equality with the reference; nested structs created by the decoder (pointer field, list element, map value, by value and by pointer) '
@@ -211,7 +211,7 @@ MANIFEST_TEXT.update({
                      'mutually recursive types with an invalid member) and 9 non-struct arguments, the real registration and entry-point code is executed by the engine in three orders of first use mixed with a valid type: '
                      'EncodeObject/DecodeObject must return an error with n == 0 and untouched buffer, EncodedSize must end in an ordinary Go panic (runtime faults are distinguished), the same on every call, everything reaching '
                      'the invalid definition rejected too, and the valid sibling must still round-trip a symbolic value.',
-            'ref': 'DESIGN.md s7 C13', 'note': _CODEC_NOTE + ' Registration outcomes depend on no symbolic input: for them the engine acts as an exact interpreter with fault detection (exhaustive over the enumerated classes, not solver-decided); the symbolic-text parser harness is not built.',
+            'ref': 'DESIGN.md s7 C13', 'note': _CODEC_NOTE + ' Registration outcomes depend on no symbolic input: for them the engine acts as an exact interpreter with fault detection (exhaustive over the enumerated classes, not solver-decided). Symbolic part: ParseType on annotation texts with symbolic bytes (see C12) must reject everything outside the allowed token sequences and never panic.',
             'technique': 'SSA-level execution of the real registration code with panic/fault classification + symbolic sibling round trip'},
     'C15': {'level': '(1) Decode with a SYMBOLIC depth budget on messages nested k levels: zero budget refused before reading input, recursion depth (engine-measured frames) bounded by the budget, insufficient budget gives the depth-limit error, '
                      'sufficient budget success. (2) Recursive type reached through struct / list / map value / map key / mixtures with concrete nesting depths up to 2000 (5000 thorough) and symbolic leaf: <= 48 levels accepted with the leaf intact, '
@@ -230,7 +230,7 @@ MANIFEST_TEXT['C12'] = {
              'and never reads a tag, and frugal\'s real tag lookup / field resolution / type-annotation parser is executed by the engine to build the descriptor. One schema in 9 equivalent spellings (frugal vs thrift tag, both with '
              'a contradicting thrift tag, omitted scalar annotations, byte for i8, package-qualified struct names, surrounding spaces, id-only thrift tags), decoy fields (untagged, unexported, embedded, foreign tag), declaration '
              'order != id order, list-vs-set at nesting depth 0..2 on shared Go types, enum vs i64, ids 0..65535: sizes, bytes and decoded values must equal the reference for all values.',
-    'ref': 'DESIGN.md s7 C12', 'note': _CODEC_NOTE + ' The parser is exercised on the concrete tags of the corpus (an exact interpretation of the real code), values are symbolic; the symbolic-text parser harness (C12(2)) is not built.',
+    'ref': 'DESIGN.md s7 C12', 'note': _CODEC_NOTE + ' Additionally the real ParseType runs on annotation texts with SYMBOLIC bytes for 9 Go types (every text of length <= 2 (3 thorough); every 1-byte substitution, deletion and insertion of each valid spelling): accepted exactly when an independent tokeniser finds one of the finitely many allowed token sequences, with the parsed type checked; never a panic. Open (not asserted): keyword positions holding a proper substring of a keyword (strings.Contains matching), whitespace-only texts.',
     'technique': 'SSA-level execution of the real tag parser + symbolic codec differential against schema-derived reference'}
 
 MANIFEST_TEXT['C08'] = {
